@@ -1,1 +1,73 @@
-Require Import Gengo.Base.Str Gengo.Model.Universe.
+(* C01 — the parsed type universe is structurally faithful to the Go type checker (partial: the
+   type checker's own view of the program -- node table, TypeStrings, scopes -- is the model's
+   input, computed by the real go/types in the harness; the field-by-field agreement of the whole
+   dump with go/types is decided by the correspondence run, the theorems below settle the parts
+   that are gengo's own logic: name splitting, the builtin table, kinds, generic origins). *)
+Require Import Gengo.Base.Str Gengo.Model.Universe Gengo.Proofs.UniverseProofs.
+
+(* tcNameToName / goNameToName: a spelling that is not an anonymous type's (and, for v2, carries no
+   type arguments) is cut at its LAST dot: package path before it, a dot-free type name after it *)
+Theorem C01_name_split : forall v2 x,
+  existsb (fun p => has_prefix p x) anon_prefixes = false ->
+  (v2 = true -> index_of LBR x = None) ->
+  let '(pkg, nm) := name_of_string v2 x in
+  (pkg = [] /\ nm = x /\ ~ In DOT x) \/ (x = pkg ++ [DOT] ++ nm /\ ~ In DOT nm).
+Proof. exact name_of_string_named. Qed.
+Print Assumptions C01_name_split.
+
+(* anonymous types live in the package with the empty path under their Go spelling *)
+Theorem C01_name_anonymous : forall v2 x,
+  existsb (fun p => has_prefix p x) anon_prefixes = true -> name_of_string v2 x = ([], x).
+Proof. exact name_of_string_anonymous. Qed.
+Print Assumptions C01_name_anonymous.
+
+(* a Go type is never reported as a different Go type: int8 has its own singleton, uint8 and byte
+   share one (they are one Go type), rune is int32 *)
+Theorem C01_builtin_table : forall v2,
+  builtin_of v2 (s "uint8") = Some (s "byte", s "Builtin") /\ builtin_of v2 (s "byte") = Some (s "byte", s "Builtin") /\
+  builtin_of v2 (s "int8") = Some (s "int8", s "Builtin") /\ builtin_of v2 (s "rune") = Some (s "int32", s "Builtin") /\
+  builtin_of v2 (s "int32") = Some (s "int32", s "Builtin").
+Proof. exact builtin_table_faithful. Qed.
+Print Assumptions C01_builtin_table.
+
+(* the kind reported for a pointer / slice / channel / array / map / struct / interface / function
+   type is exactly that kind, whatever else the walk visits before it returns *)
+Theorem C01_kind_faithful : forall v2 p fuel u use t tstr sh k u' o,
+  wf u -> plookup t p = Some (tstr, sh) -> shape_kind sh = Some k ->
+  walk v2 p fuel u use t = Some (u', o) ->
+  let nm := match use with Some n => n | None => name_of_string v2 tstr end in
+  complete (fst (get_or_create v2 u nm)) (snd (get_or_create v2 u nm)) = false ->
+  o = snd (get_or_create v2 u nm) /\ kind_of u' o = s k.
+Proof. exact walk_decides_kind. Qed.
+Print Assumptions C01_kind_faithful.
+
+(* once decided, a kind is never changed by any later walk *)
+Theorem C01_kind_stable : forall v2 p fuel u use t u' o,
+  walk v2 p fuel u use t = Some (u', o) -> forall x, complete u x = true -> kind_of u' x = kind_of u x.
+Proof. intros v2 p fuel u use t u' o H. destruct (walk_ext _ _ _ _ _ _ _ _ H) as (_ & H2 & _). exact H2. Qed.
+Print Assumptions C01_kind_stable.
+
+(* the description of a generic declaration does not depend on which of its uses is seen *)
+Theorem C01_generic_from_origin : forall p rec u use t1 t2 s1 s2 un1 ms1 un2 ms2 tps og so c uo mo tpo oo,
+  plookup t1 p = Some (s1, SNamed 1 un1 ms1 tps (Some og)) ->
+  plookup t2 p = Some (s2, SNamed 1 un2 ms2 tps (Some og)) ->
+  plookup og p = Some (so, SNamed c uo mo tpo oo) ->
+  name_of_string true s1 = name_of_string true s2 ->
+  walk_step true p rec u use t1 = walk_step true p rec u use t2.
+Proof. exact generic_described_from_origin. Qed.
+Print Assumptions C01_generic_from_origin.
+
+(* non-vacuity: p.T = struct{ A int8; B *p.T } *)
+Definition ex_prog : prog :=
+  [(1, (s "p.T", SNamed 1 2 [] [] None));
+   (2, (s "struct{A int8; B *p.T}", SStruct [(s "A", false, [], 3); (s "B", false, s "json:""b""", 4)]));
+   (3, (s "int8", SBasic (s "int8")));
+   (4, (s "*p.T", SPtr 1))]%N.
+Example C01_example :
+  match walk false ex_prog 10 {| objs := []; tkeys := [] |} None 1 with
+  | Some (u, o) => o = (s "p", s "T") /\ kind_of u o = s "Struct" /\ kind_of u ([], s "int8") = s "Builtin" /\
+                   kind_of u ([], s "*p.T") = s "Pointer" /\
+                   option_map e_members (nlookup o (objs u)) =
+                     Some [(s "A", false, [], ([], s "int8")); (s "B", false, s "json:""b""", ([], s "*p.T"))]
+  | None => False end.
+Proof. vm_compute. repeat split. Qed.
